@@ -114,6 +114,8 @@ def run(rep):
         rep.assume(a)
     it = new_interp()
     pv = Prover(rep, it, 'C15')
+    from . import c01_eval
+    c01_eval.add_c15(rep, pv, it)      # VCs of the two evaluation loops are generated in child processes meanwhile
     for t in S.GATE_TYPES:
         if t == 'INPUT':
             continue
@@ -121,8 +123,6 @@ def run(rep):
             pv.run_contract(Monotone(t, ar))
         if t in S.NARY:
             pv.run_contract(Fold3(t))
-    from . import c01_eval
-    c01_eval.add_c15(rep, pv, it)
     x, y = z3.Consts('x y', StateSort)
     canary(rep, pv, 'C15/canary/order-is-total', [], z3.Or(theory.leq_info(x, y), theory.leq_info(y, x)))
     refuted = pv.discharge(env.NPROC)
